@@ -56,10 +56,10 @@ template<typename S, size_t D> static void family(std::mt19937 & rng, int count)
     GridIndexMapping<S, D> g(half, res);
     RayCasting<S, D> reused(&g);
     V prev_o = V::Zero(), prev_e = V::Constant(half / 2);
-    for (int q = 0; q < 14; ++q) {
+    for (int q = 0; q < 20; ++q) {
       V o, e;
       for (size_t a = 0; a < D; ++a) { o[a] = (S(rng() % 20001) / 10000 - 1) * half * S(0.98); e[a] = (S(rng() % 20001) / 10000 - 1) * half * S(0.98); }
-      int kind = q % 7;
+      int kind = q % 10;
       if (kind == 1) e[0] = o[0];                                   // axis-aligned (step 0 along x)
       if (kind == 2) { e = o; e[D - 1] += res * 7; if (e[D - 1] > half * S(0.98)) e[D - 1] = o[D - 1] - res * 7; }   // axis-aligned, other axes fixed
       if (kind == 3) { for (size_t a = 0; a < D; ++a) e[a] = o[a] + res * S(5.5); if (e.maxCoeff() > half * S(0.98)) for (size_t a = 0; a < D; ++a) e[a] = o[a] - res * S(5.5); }  // diagonal
@@ -77,6 +77,12 @@ template<typename S, size_t D> static void family(std::mt19937 & rng, int count)
         }
       }
       if (kind == 5) { for (size_t a = 0; a < D; ++a) { o[a] = std::floor(o[a] / res) * res + res / 4; e[a] = std::floor(e[a] / res) * res + res * 3 / 4; } }
+      // the outermost layers of cells: an end point / origin next to the upper bound, next to the lower bound, and on the bound itself
+      if (kind == 7) { size_t a = rng() % D; e[a] = half * S(0.9995); if (rng() & 1) o[(a + 1) % D] = half * S(0.9995); }
+      if (kind == 8) { size_t a = rng() % D; o[a] = half * S(0.9995); if (rng() & 1) e[a] = -half * S(0.9995); }
+      if (kind == 9) { for (size_t a = 0; a < D; ++a) { o[a] = (rng() & 1) ? half : -half; } if (rng() & 1) e = -o; }
+      if (kind >= 7) { if (e.maxCoeff() > half || e.minCoeff() < -half || o.maxCoeff() > half || o.minCoeff() < -half) continue; }
+      else
       if (e.maxCoeff() > half * S(0.98) || e.minCoeff() < -half * S(0.98) || o.maxCoeff() > half * S(0.98) || o.minCoeff() < -half * S(0.98)) continue;   // both points inside the extent
       one<S, D>(reused, g, o, e, "reused caster", true);
       { RayCasting<S, D> fresh(&g); one<S, D>(fresh, g, o, e, "fresh caster", false); }
